@@ -70,6 +70,8 @@ pub fn replies() -> Vec<(String, Vec<u8>)> {
     v.push(("count".into(), ref_encode(7, 1, &[], true)));
     v.push(("data chunk 16".into(), ref_encode(16, 0, &[0x5A; 16], true)));
     v.push(("data chunk 0".into(), ref_encode(0, 0, &[], true)));
+    v.push(("data chunk 254 (longest line but one)".into(), ref_encode(0x0100, 0, &[0xA5; 254], true)));
+    v.push(("data chunk 255 (longest possible line)".into(), ref_encode(0xFFF0, 0, &[0x5A; 255], true)));
     v.push(("pixels complete".into(), ref_encode(3, 6, &[0], true)));
     v.push(("unknown frame".into(), ref_encode(3, 9, &[1, 2, 3], true)));
     v.push(("lower-case hex".into(), ref_encode(0xABCD, 4, &[0x0D], true).to_ascii_lowercase()));
@@ -97,6 +99,11 @@ pub const SENTINEL: &[u8] = b":01FFFF040810\r\n";
 
 /// One message through the real serial bus against a scripted port; all C16 clauses.
 pub fn check_exchange(m: &Message<'static>, first_line: &[u8], with_sentinel: bool, rscript: &[RAns], wscript: &[WAns], at_end: &RAns) -> (String, Vec<V>) {
+    let (m2, l, r, w, a) = (m.clone(), first_line.to_vec(), rscript.to_vec(), wscript.to_vec(), at_end.clone());
+    crate::util::maybe_isolated(move || check_exchange_here(&m2, &l, with_sentinel, &r, &w, &a))
+}
+
+fn check_exchange_here(m: &Message<'static>, first_line: &[u8], with_sentinel: bool, rscript: &[RAns], wscript: &[WAns], at_end: &RAns) -> (String, Vec<V>) {
     let mut tape = first_line.to_vec();
     if with_sentinel {
         tape.extend_from_slice(SENTINEL);
@@ -224,17 +231,89 @@ pub fn check_exchange(m: &Message<'static>, first_line: &[u8], with_sentinel: bo
     (outcome, out)
 }
 
+/// A failed exchange must not leak into the next one on the same bus: m1 fails (write fault `wf`, or a hard read
+/// error at read call `rf`), then m2 is sent with a healthy port. Exchange 2 is judged.
+pub fn check_after_failure(m1: &Message<'static>, wf: &[WAns], rf: Option<usize>, m2: &Message<'static>, line2: &[u8]) -> (String, Vec<V>) {
+    let (a, w, b, l) = (m1.clone(), wf.to_vec(), m2.clone(), line2.to_vec());
+    crate::util::maybe_isolated(move || check_after_failure_here(&a, &w, rf, &b, &l))
+}
+
+fn check_after_failure_here(m1: &Message<'static>, wf: &[WAns], rf: Option<usize>, m2: &Message<'static>, line2: &[u8]) -> (String, Vec<V>) {
+    let mut tape = vec![];
+    let mut rscript = vec![];
+    if let Some(j) = rf {
+        // m1's reply line, cut short by a hard error
+        tape.extend_from_slice(&ref_encode(3, 4, &[0x0F], true));
+        rscript = vec![RAns::Deliver(usize::MAX); j];
+        rscript.push(RAns::Fail(io::ErrorKind::TimedOut));
+    }
+    let start2 = tape.len();
+    tape.extend_from_slice(line2);
+    tape.extend_from_slice(SENTINEL);
+    let run = serial_run(&[m1.clone(), m2.clone()], tape.clone(), rscript, wf.to_vec(), RAns::Eof, true);
+    let mut out: Vec<V> = vec![];
+    if !run.setup_ok || run.exchanges.len() != 2 {
+        return ("setup-failed".into(), vec![("setup", "try_new-failed".into(), "could not run two exchanges".into())]);
+    }
+    let (e1, e2) = (&run.exchanges[0], &run.exchanges[1]);
+    let desc = format!("{} after a failed {} (write answers [{}], read error at call {:?})", msg_str(m2), msg_str(m1), wf.iter().map(wans_str).collect::<Vec<_>>().join(","), rf);
+    if let Some(p) = e1.panicked.as_ref().or(e2.panicked.as_ref()) {
+        return ("panic".into(), vec![("no-panic", p.class(), format!("{} panicked: {}", desc, p.message))]);
+    }
+    if e1.result.is_ok() {
+        // the first exchange did not fail after all (e.g. the message has no reply and rf was given): nothing to judge here
+        return ("first-did-not-fail".into(), out);
+    }
+    let want = ref_wire(m2);
+    if e2.written != want {
+        let cls = if e2.written.ends_with(&want) && e2.written.len() > want.len() { "stale-bytes-before-the-frame" } else if e2.written.starts_with(&want) { "extra-bytes-after-the-frame" } else { "different-bytes" };
+        out.push(("writes-exactly-the-frame", format!("after-failure:{}", cls), format!("{}: port received {} but the frame is {}", desc, show_bytes(&e2.written[..e2.written.len().min(80)]), show_bytes(&want[..want.len().min(40)]))));
+    }
+    if rf.is_none() {
+        // nothing was read during the failed exchange, so the input is intact and exchange 2 must be perfectly normal
+        if reply_due(m2) {
+            let line_end = start2 + line2.len();
+            match ref_parse(line2) {
+                RefParse::Accept { addr, typ, data } => {
+                    let wantm = ref_classify(addr, typ, &data);
+                    if e2.result.as_ref().ok().and_then(|o| o.as_ref()) != Some(&wantm) || e2.tape_pos_after != line_end {
+                        out.push(("reply-is-decoding-of-the-line", "after-failure".into(), format!("{}: returned {:?} (input position {}), the line decodes to {} (position {})", desc, e2.result.as_ref().map(|o| o.as_ref().map(|x| msg_str(x))), e2.tape_pos_after, msg_str(&wantm), line_end)));
+                    }
+                }
+                _ => {}
+            }
+        } else if !matches!(e2.result, Ok(None)) || e2.tape_pos_after != 0 {
+            out.push(("reads-iff-reply-due", "after-failure".into(), format!("{}: returned {:?}, consumed {} input bytes", desc, e2.result.as_ref().map(|o| o.as_ref().map(|x| msg_str(x))), e2.tape_pos_after)));
+        }
+    }
+    ("judged".into(), out)
+}
+
 fn case_json(m: &Message<'static>, line: &[u8], sentinel: bool, rs: &[RAns], ws: &[WAns], at_end: &RAns) -> Value {
     json!({"kind": "exchange", "message": msg_json(m), "line": hex(line), "line_shown": show_bytes(line), "sentinel": sentinel,
            "read_answers": rs.iter().map(rans_str).collect::<Vec<_>>(), "write_answers": ws.iter().map(wans_str).collect::<Vec<_>>(), "at_end": rans_str(at_end)})
 }
 
 pub fn run(ctx: &Ctx) -> Report {
+    let first = run_pass(ctx);
+    if first.violations.is_empty() || crate::util::ISOLATE_CASES.load(std::sync::atomic::Ordering::Relaxed) {
+        return first;
+    }
+    // something failed: enumerate again with every case on a fresh thread, so that what is reported replays on its own
+    crate::util::ISOLATE_CASES.store(true, std::sync::atomic::Ordering::Relaxed);
+    let mut second = run_pass(ctx);
+    if second.violations.is_empty() {
+        second.machinery_errors.push(format!("the direct pass saw {} violation signature(s) (e.g. {}) that do not reproduce when every case runs on a fresh thread: the subject's results depend on calls made earlier on the same thread (hidden thread-local/global state); no self-contained case could be produced here, see C15/C03 whose cases contain the history", first.violations.len(), first.violations.keys().next().cloned().unwrap_or_default()));
+    }
+    second
+}
+
+fn run_pass(ctx: &Ctx) -> Report {
     let mut rep = Report::new(ctx);
     let thorough = ctx.tier.thorough();
     rep.rule = "every message of the list (SendData 4 offsets x lengths {0,1,2,16,255} and every other length 0..=255 once, counts, hello/query/goodbye/pixels-complete x 5 addresses, 13 reports, 6 requests, 6 acks, 6 unknown frames incl. types 2 and 3) \
                 x every reply line (13 reports, 6 acks, foreign report, other kinds, lower case, malformed of 8 sorts, empty) followed by a sentinel line; plus a hard error / Ok(0) / short accepts at every write call index, \
-                a hard error / timeout / Ok(0) / interrupts at every read call index. Each run is one real process_message on a real SerialSignBus over a scripted port (virtual clock). \
+                a hard error / timeout / Ok(0) / interrupts at every read call index. Each run is one real process_message on a real SerialSignBus over a scripted port (virtual clock). Sequences: for 14 representative messages x 14, an exchange that fails (4 write-failure shapes, a hard read error at 4 call indices) followed by a clean exchange on the SAME bus, which must be perfectly normal. \
                 Non-trivial = runs where a reply is due or a fault is injected; distinct by (message, line, scripts)"
         .into();
     rep.trusted_base = vec!["devices.rs ScriptPort".into(), "refmodel::{ref_wire, ref_parse, ref_classify}".into(), "the sleep seam (only to avoid real waiting)".into()];
@@ -295,6 +374,51 @@ pub fn run(ctx: &Ctx) -> Report {
     for a in accs {
         all.merge(ID, a);
     }
+    // sequences: a failed exchange followed by a clean one on the same bus
+    let reps_idx: Vec<usize> = {
+        let mut seen = std::collections::BTreeSet::new();
+        let mut v = vec![];
+        for (i, m) in msgs.iter().enumerate() {
+            let k = match m {
+                Message::SendData(_, d) => format!("SendData{}", d.get().len().min(17)),
+                other => kind_name(other).to_string(),
+            };
+            if seen.insert(k) && v.len() < 14 {
+                v.push(i);
+            }
+        }
+        v
+    };
+    let wfaults: Vec<Vec<WAns>> = vec![vec![WAns::Fail(io::ErrorKind::Other)], vec![WAns::Zero], vec![WAns::Accept(3), WAns::Fail(io::ErrorKind::BrokenPipe)], vec![WAns::Accept(5), WAns::Interrupted, WAns::Zero]];
+    let ack_line = ref_encode(3, 5, &[0x91], true);
+    let mut sjobs: Vec<(usize, Option<usize>, Option<usize>, usize)> = vec![];
+    for &i1 in &reps_idx {
+        for &i2 in &reps_idx {
+            for w in 0..wfaults.len() {
+                sjobs.push((i1, Some(w), None, i2));
+            }
+            if reply_due(&msgs[i1]) {
+                for j in [0usize, 1, 5, 12] {
+                    sjobs.push((i1, None, Some(j), i2));
+                }
+            }
+        }
+    }
+    let accs = par_range(sjobs.len() as u64, 32, Acc::default, |acc, i| {
+        let (i1, w, rf, i2) = sjobs[i as usize];
+        acc.evals += 1;
+        let wf: Vec<WAns> = w.map(|k| wfaults[k].clone()).unwrap_or_default();
+        let (outcome, vs) = check_after_failure(&msgs[i1], &wf, rf, &msgs[i2], &ack_line);
+        acc.outcomes.add(&format!("sequence:{}", outcome));
+        acc.nontrivial_fp.push((1u64 << 40) | i);
+        for (clause, class, detail) in vs {
+            acc.violation(ID, Violation::new(clause, class, detail, json!({"kind": "sequence", "m1": msg_json(&msgs[i1]), "write_answers": wf.iter().map(wans_str).collect::<Vec<_>>(), "read_error_at": rf, "m2": msg_json(&msgs[i2]), "line2": hex(&ack_line)}), (1u64 << 44) | i));
+        }
+    });
+    for a in accs {
+        all.merge(ID, a);
+    }
+    all.samples.push(json!({"kind": "sequence", "first": "SendData whose write fails after 3 bytes", "then": "Hello on the same bus", "judged": "the port receives exactly Hello's frame and the reply is read normally"}));
     all.samples.push(case_json(&msgs[25], &reps[3].1, true, &[], &[], &RAns::Eof));
     all.samples.push(case_json(&msgs[0], &reps[0].1, true, &[], &[WAns::Accept(4), WAns::Zero], &RAns::Eof));
     all.samples.push(case_json(&msgs[24], &reps[reps.len() - 1].1, true, &[], &[], &RAns::Fail(io::ErrorKind::TimedOut)));
@@ -313,6 +437,12 @@ fn ri_of(reps: &[(String, Vec<u8>)], name: &str) -> usize {
 }
 
 pub fn replay(_ctx: &Ctx, case: &Value) -> Result<Vec<Violation>, String> {
+    crate::util::ISOLATE_CASES.store(true, std::sync::atomic::Ordering::Relaxed);
+    if case["kind"].as_str() == Some("sequence") {
+        let ws: Vec<WAns> = case["write_answers"].as_array().ok_or("write_answers")?.iter().map(|x| wans_from(x.as_str().unwrap_or("A0"))).collect();
+        let (_, vs) = check_after_failure(&msg_from_json(&case["m1"]), &ws, case["read_error_at"].as_u64().map(|x| x as usize), &msg_from_json(&case["m2"]), &unhex(case["line2"].as_str().ok_or("line2")?));
+        return Ok(vs.into_iter().map(|(c, k, d)| Violation::new(c, k, d, case.clone(), 0)).collect());
+    }
     if case["kind"].as_str() != Some("exchange") {
         return Err("unknown case kind".into());
     }
